@@ -85,7 +85,9 @@ def c02(case, rec=None):
                         raise Violation("C02/region/unknown", "%s #%d %s region %d which the artefact does not publish" % (c.kind, c.index, what, region), case)
                     lo, hi = iv[0][0], iv[-1][1]
                     if lo < 0 or hi > ext[region]:
-                        raise Violation("C02/out-of-region/%s-region%s" % (what, "SHRAM" if region == csdec.SHRAM_REGION else region),
+                        import constructs
+
+                        raise Violation("C02/out-of-region/%s-region%s%s" % (what, "SHRAM" if region == csdec.SHRAM_REGION else region, constructs.tags(case["spec"])),
                                         "%s #%d of ethos-u operator %d %s bytes [0x%x,0x%x) of region %s whose published extent is %d bytes" % (
                                             c.kind, c.index, nop.index, what, lo, hi, "SHRAM" if region == csdec.SHRAM_REGION else region, ext[region]), case)
                     if region == 2:
